@@ -9,16 +9,16 @@ VERIF = os.path.dirname(os.path.dirname(os.path.abspath(__file__)))
 sys.path.insert(0, VERIF)
 
 TECH = {
-    "C01": ("reference-model monitor: independent numpy -2lnL evaluated beside every cost read", "3 C01"),
+    "C01": ("reference-model monitor: independent numpy -2lnL evaluated beside every cost read (single fits and MultiFits with shared sources driven through toggle / late-declaration scripts)", "3 C01"),
     "C02": ("history monitor with shadow covariance model + icontract class invariants on CovMat", "3 C02"),
     "C03": ("differential trace monitor: live fit vs freshly built twins (T1 reads deleted, T2 normal form, T3 normal form at the fitted values after do_fit) after every op; injected failing do_fit", "3 C03"),
     "C04": ("reference interpreter over random graph programs + call-counter monitor + reach counters", "3 C04"),
-    "C05": ("post-condition monitor on do_fit: closed-form GLS oracle", "3 C05"),
-    "C06": ("post-condition monitor on do_fit: independent objective probed around the reported optimum", "3 C06"),
-    "C07": ("definitional oracles (reference Hessian / profile / contour level / band) on fitted objects, also after fixing / releasing a parameter where it stands and with inactive limits", "3 C07"),
+    "C05": ("post-condition monitor on do_fit: closed-form GLS oracle (single fits and MultiFits with shared sources and member constraints)", "3 C05"),
+    "C06": ("post-condition monitor on do_fit: independent objective probed around the reported optimum (single fits and MultiFits with mixed members); reference iteration map for the iterative algorithm", "3 C06"),
+    "C07": ("definitional oracles (reference Hessian / profile / contour level / band) on fitted objects, also after fixing / releasing a parameter where it stands, with inactive limits, and for the members of a MultiFit by parameter name", "3 C07"),
     "C08": ("trace monitor: snapshot of fit + minimizer state after every post-fit query; fault injection (cost function raises at its k-th evaluation) for requests that fail; configuration call after the last query", "3 C08"),
     "C09": ("round-trip differential monitor + parsed-document monitor on save/load; original and reloaded object driven through the same later operations", "3 C09"),
-    "C10": ("formula monitor over fix/release/constraint histories", "3 C10"),
+    "C10": ("formula monitor over fix/release/constraint histories interleaved with pure queries on grids of other lengths", "3 C10"),
     "C11": ("conservation monitor (sum of member costs) + joint-covariance reference + member results by parameter name; injected failing fits", "3 C11"),
     "C12": ("shadow multiset + conservation invariant (icontract) + order-independence metamorphic monitor", "3 C12"),
     "C13": ("exactness-class oracle for quadrature rules (antiderivative differences, textbook error constants)", "3 C13"),
